@@ -266,6 +266,7 @@ theorem afterS_tail (f : List Var) (vs : VStack) (s : Stmt) : ∃ f', afterS (f 
     · exact ⟨f, rfl⟩
     · exact ⟨v :: f, rfl⟩
   | ret _ => exact ⟨f, rfl⟩
+  | aug _ _ _ _ => exact ⟨f, rfl⟩
   | ifs _ _ _ => exact ⟨f, rfl⟩
   | while_ _ _ => exact ⟨f, rfl⟩
   | forRange _ _ _ _ _ _ => exact ⟨f, rfl⟩
@@ -358,6 +359,14 @@ theorem py_preserve (lits : Lits) : ∀ fuel,
       | ret e =>
         simp only [pyStmt] at h
         cases he : pyExpr' lits σ e <;> rw [he] at h <;> cases h
+      | aug v name op e =>
+        simp only [pyStmt] at h
+        have hne : x ≠ v := by simp [writes] at hx; exact hx
+        split at h
+        · split at h
+          · cases h; exact Store.get_put_ne σ v x _ hne
+          · cases h
+        · cases h
       | ifs arms he els =>
         simp only [pyStmt] at h
         exact ihA σ arms els σ' h x (by simpa [writes] using hx)
@@ -447,6 +456,47 @@ theorem py_preserve (lits : Lits) : ∀ fuel,
         · cases h
       · cases h; rfl
 
+/-! ## the loop test: the pasted text is the operator node when no guard is due -/
+
+theorem condPieces_eq : condPieces = [.var sSymbol, .sp, .tok ['<'], .sp, .var sSize] := by decide
+
+theorem pastedCond_eq (v : Var) (name : Str) (s0 : Node) (h : isRegrouped s0 BOp.lt.tok = false) :
+    pastedCond v name s0 = emitRaw (condNode v name s0) := by
+  have hraw := renderBinary_raw .lt false .int .int [.t (.atom v name)] (emitRaw s0) ['<'] rfl rfl
+  have hl : pastedCond v name s0 = [.t (.atom v name)] ++ (.sp :: .t (.sym ['<']) :: .sp :: emitRaw s0) := by
+    simp only [pastedCond, condPieces_eq]
+    show _ = _
+    simp [instantiate, lookup, sSymbol, sSize]
+  rw [hl, ← hraw]
+  have ha : ∀ o, isRegrouped (.atom v name) o = false := fun _ => rfl
+  simp only [condNode, emitRaw, Rest.firstTok, emitRest, guardIf, h, ha, Bool.false_eq_true, ↓reduceIte]
+
+theorem cCond_eq (lits : Lits) (fs : Frames) (v : Var) (name : Str) (s0 : Node) (hl : lits v = none)
+    (h : isRegrouped s0 BOp.lt.tok = false) : cCond lits fs v name s0 = cExpr lits fs (condNode v name s0) := by
+  have hr : readsOf lits (condNode v name s0) = v :: readsOf lits s0 := by
+    simp [condNode, readsOf, readsOfRest, hl]
+  simp only [cCond, cExpr, toks, emit, pastedCond_eq v name s0 h, hr]
+
+/-- Python's value of the comparison the loop test stands for -/
+theorem pyCond (lits : Lits) {σ : Store} {v : Var} {name : Str} {s0 : Node} {cur si : Int} (hl : lits v = none)
+    (hv : σ.get v = some cur) (h32 : inI32 cur = true) (hs : pyExpr' lits σ s0 = .ok (.int si)) :
+    pyExpr' lits σ (condNode v name s0) = .ok (.bool (decide (cur < si))) := by
+  simp only [pyExpr'] at hs ⊢
+  split at hs
+  · rename_i hall
+    have hall' : ((readsOf lits (condNode v name s0)).all fun x => (σ.get x).isSome) = true := by
+      simp only [List.all_eq_true] at hall ⊢
+      intro x hx
+      have : x = v ∨ x ∈ readsOf lits s0 := by simpa [condNode, readsOf, readsOfRest, hl] using hx
+      rcases this with rfl | h
+      · simp [hv]
+      · exact hall x h
+    rw [if_pos hall']
+    simp only [condNode, denotePy, pyEnv, hl, hv, Option.getD_some, chk, h32, ↓reduceIte, denoteRest, hs]
+    simp [pyBin, pyCmp, Val.repr, BOp.level, cmpLevel]
+    exact decide_eq_decide.mpr Iff.rfl
+  · cases hs
+
 /-- outcomes correspond: same returned value, or stores in the invariant at the resulting stack of visible names -/
 def RelOut (vs' : VStack) : Outcome Store → Outcome Frames → Prop
   | .normal σ', .normal fs' => Inv vs' σ' fs'
@@ -513,14 +563,15 @@ theorem sim (lits : Lits) : ∀ fuel,
     (∀ vs σ fs arms els out, armsOK lits vs arms = true → scopeOK lits ([] :: vs) els = true → Inv vs σ fs →
       pyArms lits fuel σ arms els = .ok out →
       ∃ out', cArms lits fuel fs (annotVArms vs arms) (annotV ([] :: vs) els) = .ok out' ∧ RelOut vs out out') ∧
-    (∀ vs σ st fs0 v cur si ti s0 t0 body out,
+    (∀ vs σ st fs0 v name cur si ti s0 t0 body out,
       Inv vs σ fs0 → frameOK [v] st → st.get v = some cur → visible vs v = false →
+      lits v = none → isRegrouped s0 BOp.lt.tok = false → exprOK lits ([v] :: vs) (condNode v name s0) = true → inI32 cur = true →
       exprOK lits vs s0 = true → exprOK lits vs t0 = true →
       pyExpr' lits σ s0 = .ok (.int si) → pyExpr' lits σ t0 = .ok (.int ti) →
       ((loopFixed lits v s0 t0).all fun x => !(writes body).contains x) = true →
       scopeOK lits ([] :: [v] :: vs) body = true →
       pyFor lits fuel σ v cur si ti body = .ok out →
-      ∃ out', popOut (cFor lits fuel (st :: fs0) v s0 t0 (annotV ([] :: [v] :: vs) body)) = .ok out' ∧ RelOut vs out out') := by
+      ∃ out', popOut (cFor lits fuel (st :: fs0) v name s0 t0 (annotV ([] :: [v] :: vs) body)) = .ok out' ∧ RelOut vs out out') := by
   intro fuel
   induction fuel with
   | zero =>
@@ -528,7 +579,7 @@ theorem sim (lits : Lits) : ∀ fuel,
     · intro vs σ fs blk out _ _ h; simp [pyExec] at h
     · intro vs σ fs s rest out _ _ h; simp [pyStmt] at h
     · intro vs σ fs arms els out _ _ _ h; simp [pyArms] at h
-    · intro vs σ st fs0 v cur si ti s0 t0 body out _ _ _ _ _ _ _ _ _ _ h; simp [pyFor] at h
+    · intro vs σ st fs0 v name cur si ti s0 t0 body out _ _ _ _ _ _ _ _ _ _ _ _ _ _ h; simp [pyFor] at h
   | succ fuel ih =>
     obtain ⟨ihB, ihS, ihA, ihF⟩ := ih
     refine ⟨?_, ?_, ?_, ?_⟩
@@ -592,6 +643,28 @@ theorem sim (lits : Lits) : ∀ fuel,
           rw [he] at hp; cases hp
           have hce := expr_agree lits hi hok.1 he
           exact ⟨.ret e, annotV vs rest, .returned val.repr, by simp [annotV], by simp [afterS], by simp [cStmt, hce], rfl⟩
+      | aug v name op e =>
+        simp only [scopeOK, Bool.and_eq_true] at hok
+        obtain ⟨⟨⟨hoke, hvis⟩, haug⟩, _⟩ := hok
+        simp only [pyStmt] at hp
+        split at hp
+        · rename_i x y hx hy
+          split at hp
+          · rename_i z hz
+            cases hp
+            have hce := expr_agree lits hi hoke hy
+            have hsome : (fs.get v).isSome = true := by rw [← hi.shape.visible_iff v]; exact hvis
+            obtain ⟨x', hx'⟩ := Option.isSome_iff_exists.mp hsome
+            have hxx : x' = x := by
+              have := hi.agree v x' hx'
+              rw [hx] at this; cases this; rfl
+            subst hxx
+            have hcpp := pyBin_cpp hz (by intro e; subst e; simp [augOp, augOps] at haug) (by intro e; subst e; simp [augOp, augOps] at haug)
+            obtain ⟨fs', hset, hinv⟩ := hi.set hvis z
+            exact ⟨.aug v name op e, annotV vs rest, .normal fs', by simp [annotV], by simp [afterS],
+              by simp [cStmt, hx', hce, Val.repr] at hcpp ⊢; simp [hcpp, hset], by simpa [afterS, RelOut] using hinv⟩
+          · cases hp
+        · cases hp
       | ifs arms he els =>
         simp only [scopeOK, Bool.and_eq_true] at hok
         simp only [pyStmt] at hp
@@ -642,7 +715,8 @@ theorem sim (lits : Lits) : ∀ fuel,
                     exact ⟨o2, by simp [annotV], by simp [afterS], by simp [cStmt, hce, Val.repr, hcb, hc2], by simpa [afterS] using hr2⟩
       | forRange v name b0 s0 t0 body =>
         simp only [scopeOK, Bool.and_eq_true, Bool.not_eq_true'] at hok
-        obtain ⟨⟨⟨⟨⟨⟨⟨hb0, hs0⟩, ht0⟩, hvis⟩, _⟩, hfix⟩, hokb⟩, _⟩ := hok
+        obtain ⟨⟨⟨⟨⟨⟨⟨hb0, hs0⟩, ht0⟩, hvis⟩, ⟨⟨hlit, hreg⟩, hcond⟩⟩, hfix⟩, hokb⟩, _⟩ := hok
+        have hlit' : lits v = none := by simpa using hlit
         simp only [pyStmt] at hp
         cases hb : pyExpr' lits σ b0 with
         | error er => rw [hb] at hp; cases hp
@@ -658,9 +732,10 @@ theorem sim (lits : Lits) : ∀ fuel,
               rename_i b s t
               simp only at hp
               split at hp
-              · have hcb := expr_agree lits hi hb0 hb
-                obtain ⟨o', hc, hr⟩ := ihF vs σ [(v, b)] fs v b s t s0 t0 body out hi (frameOK_single v b) (by simp [Store.get]) hvis hs0 ht0 hs ht
-                  hfix hokb hp
+              · rename_i hcnd
+                have hcb := expr_agree lits hi hb0 hb
+                obtain ⟨o', hc, hr⟩ := ihF vs σ [(v, b)] fs v name b s t s0 t0 body out hi (frameOK_single v b) (by simp [Store.get]) hvis
+                  hlit' hreg hcond hcnd.2 hs0 ht0 hs ht hfix hokb hp
                 exact ⟨.forRange v name b0 s0 t0 (annotV ([] :: [v] :: vs) body), annotV vs rest, o', by simp [annotV], by simp [afterS],
                   by simp [cStmt, hcb, Val.repr, hc], by simpa [afterS] using hr⟩
               · cases hp
@@ -704,7 +779,7 @@ theorem sim (lits : Lits) : ∀ fuel,
               obtain ⟨o', hc, hr⟩ := ihA vs σ fs rest els out hoka.2 hoke hi hp
               exact ⟨o', by simp [annotVArms, cArms, hce, Val.repr, hc], hr⟩
     · -- for loops: from the loop test on
-      intro vs σ st fs0 v cur si ti s0 t0 body out hi hfr hcur hvis hs0 ht0 hps hpt hfix hokb hp
+      intro vs σ st fs0 v name cur si ti s0 t0 body out hi hfr hcur hvis hlit hreg hcond hcur32 hs0 ht0 hps hpt hfix hokb hp
       simp only [pyFor] at hp
       have hi1 : Inv ([v] :: vs) (σ.put v cur) (st :: fs0) := inv_for hi hfr hcur hvis
       have hnr_s := exprOK_not_reads lits hs0 hvis
@@ -712,8 +787,10 @@ theorem sim (lits : Lits) : ∀ fuel,
       have hps1 : pyExpr' lits (σ.put v cur) s0 = .ok (.int si) := by
         rw [← hps]; apply pyExpr'_congr; intro x hx
         exact Store.get_put_ne σ v x cur (fun e => hnr_s (e ▸ hx))
-      have hcs : cExpr lits (st :: fs0) s0 = .ok si := by
-        simpa [Val.repr] using expr_agree lits hi1 (exprOK_mono lits [v] hs0) hps1
+      have hcs : cCond lits (st :: fs0) v name s0 = .ok (b2i (decide (cur < si))) := by
+        rw [cCond_eq lits _ v name s0 hlit hreg]
+        have := expr_agree lits hi1 hcond (pyCond lits (name := name) hlit (Store.get_put_same σ v cur) hcur32 hps1)
+        simpa [Val.repr, b2i] using this
       have hgv : Frames.get (st :: fs0) v = some cur := by simp [Frames.get, hcur]
       by_cases hlt : cur < si
       · simp only [hlt, ↓reduceIte] at hp
@@ -729,7 +806,7 @@ theorem sim (lits : Lits) : ∀ fuel,
               cases hp
               cases ob' with
               | normal _ => cases hrb
-              | returned y => exact ⟨.returned y, by simp only [cFor, hgv, hcs, hlt, ↓reduceIte, hcb]; rfl, hrb⟩
+              | returned y => exact ⟨.returned y, by simp only [cFor, hcs, hlt, decide_true, b2i, ↓reduceIte, hcb]; simp [popOut], hrb⟩
             | normal σ1 =>
               simp only at hp
               cases ob' with
@@ -765,13 +842,15 @@ theorem sim (lits : Lits) : ∀ fuel,
                   simpa [Val.repr] using expr_agree lits hinv1 (exprOK_mono lits [v] ht0) hpt'
                 have hset : Frames.set (st1 :: fs0') v (cur + ti) = some (st1.put v (cur + ti) :: fs0') := by simp [Frames.set, hst1]
                 have hgv1 : Frames.get (st1 :: fs0') v = some cur := by simp [Frames.get, hst1]
-                obtain ⟨o2, hc2, hr2⟩ := ihF vs σ1 (st1.put v (cur + ti)) fs0' v (cur + ti) si ti s0 t0 body out (by simpa using Inv.pop hinv1)
-                  (frameOK_put hfr1 (by simp [hst1]) _) (Store.get_put_same _ _ _) hvis hs0 ht0 hps' hpt' hfix hokb hp
-                exact ⟨o2, by simp only [cFor, hgv, hcs, hlt, ↓reduceIte, hcb, hgv1, hct, h32, hset]; exact hc2, hr2⟩
+                obtain ⟨o2, hc2, hr2⟩ := ihF vs σ1 (st1.put v (cur + ti)) fs0' v name (cur + ti) si ti s0 t0 body out (by simpa using Inv.pop hinv1)
+                  (frameOK_put hfr1 (by simp [hst1]) _) (Store.get_put_same _ _ _) hvis hlit hreg hcond h32 hs0 ht0 hps' hpt' hfix hokb hp
+                exact ⟨o2, by
+                  simp only [cFor, hcs, hlt, decide_true, b2i, ↓reduceIte, hcb, hgv1, hct, h32, hset]
+                  simpa using hc2, hr2⟩
         · simp only [h32] at hp; cases hp
       · simp only [hlt, ↓reduceIte] at hp
         cases hp
-        exact ⟨.normal fs0, by simp [cFor, hgv, hcs, hlt, popOut], hi⟩
+        exact ⟨.normal fs0, by simp [cFor, hcs, hlt, b2i, popOut], hi⟩
 
 end Tranp.Emit
 
@@ -944,6 +1023,10 @@ theorem annotD_eq : ∀ (b : Block) (d : List (Scope × Var)) (k : Nat) (s : Sco
         · simp only [List.mem_singleton] at h'; subst h'; exact Or.inr (isPrefix_refl s)
       · exact Or.inr h
   | .cons (.ret e) rest, d, k, s, vs, hr, hf => by
+    obtain ⟨h1, h2, h3⟩ := annotD_eq rest d k s vs hr hf
+    simp only [annotD, annotV, afterB, afterS]
+    exact ⟨by rw [h1], h2, h3⟩
+  | .cons (.aug v name op e) rest, d, k, s, vs, hr, hf => by
     obtain ⟨h1, h2, h3⟩ := annotD_eq rest d k s vs hr hf
     simp only [annotD, annotV, afterB, afterS]
     exact ⟨by rw [h1], h2, h3⟩
